@@ -1,74 +1,83 @@
-import Sm9.Proofs.GroupBasic
+import Sm9.Proofs.Decoders
 /-!
 # C08 — Point decoders are total, strict and build-profile independent
-The decoders of the model return `Except CurveError _`: they have no panic outcome at all
-(the D3/D4 repairs removed the `unwrap` and the `debug_assert!`), and no construct whose
-behaviour depends on the build profile.  Acceptance implies exact length, exact prefix and
-canonical coordinates.
+
+On the model of the six decoders (which have no panic outcome — they return
+`Except CurveError _` — and no profile-dependent construct after the D3/D4 repairs):
+`Ok(P)` **if and only if** the input has exactly the length and prefix of the format, every
+coordinate is below q and the decoded affine point lies on the curve (G2: and r·(x,y) = O);
+in that case re-encoding P in the same format gives back the input; every other input is
+`Err` (which kind is characterised for the raw G1 format).  Compressed G2: acceptance is
+characterised (`g2_from_compressed_sound`), re-encoding under Re y ≠ 0 (`…_partial`).
 -/
 namespace Sm9.C08
 
-theorem g1_from_slice_length (bs : List UInt8) (p : G1) (h : Api.g1FromSlice bs = .ok p) : bs.length = 64 := by
-  unfold Api.g1FromSlice at h
-  split at h
-  · cases h
-  · next hl => simpa using hl
-theorem g1_from_uncompressed_shape (bs : List UInt8) (p : G1) (h : Api.g1FromUncompressed bs = .ok p) :
-    bs.length = 65 ∧ bs.head? = some 4 := by
-  unfold Api.g1FromUncompressed at h
-  split at h
-  · cases h
-  · next hl => simpa using hl
-theorem g1_from_compressed_shape (bs : List UInt8) (p : G1) (h : Api.g1FromCompressed bs = .ok p) :
-    bs.length = 33 ∧ ((bs.headD 0).toNat = 2 ∨ (bs.headD 0).toNat = 3) := by
-  unfold Api.g1FromCompressed at h
-  by_cases hl : bs.length ≠ 33
-  · simp [hl] at h
-  · by_cases hs : (bs.headD 0).toNat ≠ 2 ∧ (bs.headD 0).toNat ≠ 3
-    · rw [List.headD_eq_head?_getD] at hs
-      simp [hl, hs] at h
-    · exact ⟨by omega, by omega⟩
-theorem g2_from_slice_length (bs : List UInt8) (p : G2) (h : Api.g2FromSlice bs = .ok p) : bs.length = 128 := by
-  unfold Api.g2FromSlice at h
-  split at h
-  · cases h
-  · next hl => simpa using hl
-theorem g2_from_uncompressed_shape (bs : List UInt8) (p : G2) (h : Api.g2FromUncompressed bs = .ok p) :
-    bs.length = 129 ∧ bs.head? = some 4 := by
-  unfold Api.g2FromUncompressed at h
-  split at h
-  · cases h
-  · next hl => simpa using hl
-theorem g2_from_compressed_shape (bs : List UInt8) (p : G2) (h : Api.g2FromCompressed bs = .ok p) :
-    bs.length = 65 ∧ ((bs.headD 0).toNat = 2 ∨ (bs.headD 0).toNat = 3) := by
-  unfold Api.g2FromCompressed at h
-  by_cases hl : bs.length ≠ 65
-  · simp [hl] at h
-  · by_cases hs : (bs.headD 0).toNat ≠ 2 ∧ (bs.headD 0).toNat ≠ 3
-    · rw [List.headD_eq_head?_getD] at hs
-      simp [hl, hs] at h
-    · exact ⟨by omega, by omega⟩
-/-- strict coordinates: the strict field decoder rejects every value ≥ q -/
-theorem coordinate_strict (bs : List UInt8) (x : Fq) (h : Api.fqFromSliceStrict bs = some x) :
-    bs.length = 32 ∧ beVal bs < q ∧ x.val = beVal bs := by
-  unfold Api.fqFromSliceStrict at h
-  split at h
-  · next hl =>
-    unfold Fq.new at h
-    split at h
-    · next hlt => cases h; exact ⟨hl, hlt, rfl⟩
-    · cases h
-  · cases h
+/-! G1 -/
+theorem g1_from_slice_iff (bs : List UInt8) (P : G1) :
+    Api.g1FromSlice bs = .ok P ↔
+      bs.length = 64 ∧ ∃ x y : Fq, beVal (bs.take 32) = x.val ∧ beVal (bs.drop 32) = y.val ∧
+        (beVal (bs.take 32) < q) ∧ (beVal (bs.drop 32) < q) ∧
+        y * y = x * x * x + b1 ∧ P = { x := x, y := y, z := 1 } := Sm9.g1_from_slice_iff bs P
+theorem g1_from_slice_reencode (bs : List UInt8) (P : G1) (h : Api.g1FromSlice bs = .ok P) :
+    Api.g1ToSlice P = .ok bs := Sm9.g1_from_slice_reencode bs P h
+theorem g1_from_slice_invalid_iff (bs : List UInt8) :
+    Api.g1FromSlice bs = .error .InvalidEncoding ↔
+      bs.length ≠ 64 ∨ q ≤ beVal (bs.take 32) ∨ q ≤ beVal (bs.drop 32) := Sm9.g1_from_slice_invalid_iff bs
+theorem g1_from_slice_not_member_iff (bs : List UInt8) :
+    Api.g1FromSlice bs = .error .NotMember ↔
+      bs.length = 64 ∧ ∃ x y : Fq, beVal (bs.take 32) = x.val ∧ beVal (bs.drop 32) = y.val ∧
+        y * y ≠ x * x * x + b1 := Sm9.g1_from_slice_not_member_iff bs
+theorem g1_from_uncompressed_iff (bs : List UInt8) (P : G1) :
+    Api.g1FromUncompressed bs = .ok P ↔ ∃ tl, bs = (4 : UInt8) :: tl ∧ Api.g1FromSlice tl = .ok P :=
+  Sm9.g1_from_uncompressed_iff bs P
+theorem g1_from_uncompressed_reencode (bs : List UInt8) (P : G1) (h : Api.g1FromUncompressed bs = .ok P) :
+    Api.g1ToUncompressed P = .ok bs := Sm9.g1_from_uncompressed_reencode bs P h
+theorem g1_from_compressed_iff (bs : List UInt8) (P : G1) :
+    Api.g1FromCompressed bs = .ok P ↔
+      ∃ x y : Fq, y * y = x * x * x + b1 ∧ bs = compByte y.is_even :: Api.fqToSlice x ∧
+        P = { x := x, y := y, z := 1 } := Sm9.g1_from_compressed_iff bs P
+theorem g1_from_compressed_reencode (bs : List UInt8) (P : G1) (h : Api.g1FromCompressed bs = .ok P) :
+    Api.g1ToCompressed P = .ok bs := Sm9.g1_from_compressed_reencode bs P h
+/-! G2 -/
+theorem g2_from_slice_iff (bs : List UInt8) (P : G2) :
+    Api.g2FromSlice bs = .ok P ↔
+      bs.length = 128 ∧ ∃ x y : Fq2, Api.fq2FromSlice (bs.take 64) = some x ∧
+        Api.fq2FromSlice (bs.drop 64) = some y ∧
+        y * y = x * x * x + b2 ∧ r • G2.toAff { x := x, y := y, z := 1 } = 0 ∧
+        P = { x := x, y := y, z := 1 } := Sm9.g2_from_slice_iff bs P
+theorem g2_from_slice_reencode (bs : List UInt8) (P : G2) (h : Api.g2FromSlice bs = .ok P) :
+    Api.g2ToSlice P = .ok bs := Sm9.g2_from_slice_reencode bs P h
+theorem g2_from_uncompressed_iff (bs : List UInt8) (P : G2) :
+    Api.g2FromUncompressed bs = .ok P ↔ ∃ tl, bs = (4 : UInt8) :: tl ∧ Api.g2FromSlice tl = .ok P :=
+  Sm9.g2_from_uncompressed_iff bs P
+theorem g2_from_uncompressed_reencode (bs : List UInt8) (P : G2) (h : Api.g2FromUncompressed bs = .ok P) :
+    Api.g2ToUncompressed P = .ok bs := Sm9.g2_from_uncompressed_reencode bs P h
+theorem g2_from_compressed_sound (bs : List UInt8) (P : G2) (h : Api.g2FromCompressed bs = .ok P) :
+    ∃ (b : UInt8) (x y : Fq2), (b.toNat = 2 ∨ b.toNat = 3) ∧ bs = b :: Api.fq2ToSlice x ∧
+      y * y = x * x * x + b2 ∧ r • G2.toAff { x := x, y := y, z := 1 } = 0 ∧
+      P = { x := x, y := y, z := 1 } ∧
+      (y.c0 ≠ 0 → b = compByte (Api.fq2IsEven y)) := Sm9.g2_from_compressed_sound bs P h
+/-- re-encoding of an accepted compressed G2 input, **partial**: under Re y ≠ 0.  Missing: a proof that
+    no point of the order-r subgroup of the twist has Re y = 0. -/
+theorem g2_from_compressed_reencode_partial (bs : List UInt8) (P : G2)
+    (h : Api.g2FromCompressed bs = .ok P) (hre : P.y.c0 ≠ 0) : Api.g2ToCompressed P = .ok bs :=
+  Sm9.g2_from_compressed_reencode_partial bs P h hre
+/-- strict coordinates: the strict field decoder accepts exactly the 32-byte strings below q -/
+theorem coordinate_strict (bs : List UInt8) (x : Fq) :
+    Api.fqFromSliceStrict bs = some x ↔ bs.length = 32 ∧ beVal bs = x.val := Api.fqFromSliceStrict_iff bs x
+theorem coordinate_rejected (bs : List UInt8) :
+    Api.fqFromSliceStrict bs = none ↔ bs.length ≠ 32 ∨ q ≤ beVal bs := Api.fqFromSliceStrict_eq_none_iff bs
 /-- `Fq2::from_slice` (after D3): an error, never a panic, on an out-of-range half -/
-theorem fq2_from_slice_strict (bs : List UInt8) (x : Fq2) (h : Api.fq2FromSlice bs = some x) :
-    bs.length = 64 ∧ beVal (bs.take 32) < q ∧ beVal (bs.drop 32) < q := by
-  unfold Api.fq2FromSlice at h
-  split at h
-  · next hl =>
-    split at h
-    · next c1 c0 h1 h0 =>
-      exact ⟨hl, (coordinate_strict _ _ h1).2.1, (coordinate_strict _ _ h0).2.1⟩
-    · cases h
-  · cases h
+theorem fq2_from_slice_iff (bs : List UInt8) (x : Fq2) :
+    Api.fq2FromSlice bs = some x ↔ bs.length = 64 ∧ beVal (bs.take 32) = x.c1.val ∧ beVal (bs.drop 32) = x.c0.val :=
+  Api.fq2FromSlice_iff bs x
+
+/-- non-vacuity: the encoding of the generator is accepted -/
+example : ∃ P, Api.g1FromSlice (Api.fqToSlice (G.one : G1).x ++ Api.fqToSlice (G.one : G1).y) = .ok P := by
+  have h : (G.one : G1).y * (G.one : G1).y = (G.one : G1).x * (G.one : G1).x * (G.one : G1).x + b1 := by
+    have := P1_on_curve
+    rw [Fq.squared_def, Fq.squared_def] at this
+    exact this
+  exact ⟨_, Sm9.g1_from_slice_encode _ _ h⟩
 
 end Sm9.C08
